@@ -125,3 +125,13 @@ def write_replay(prop, obligation, payload):
     with open(p, 'w') as f:
         json.dump(payload, f, indent=1, sort_keys=True)
     return p
+
+
+def result_line(out):
+    """The verdict line of a native check: the last line, or -- when a FAIL line is followed by more text (a panic message with
+    line breaks) -- the FAIL line joined with what follows."""
+    lines = out.strip().splitlines() or ['']
+    kf = [k for k, l in enumerate(lines) if l.startswith('FAIL')]
+    if kf and not lines[-1].startswith(('OK', 'SURVEY', 'FAIL')):
+        return ' '.join(lines[kf[-1]:])
+    return lines[-1]
